@@ -343,7 +343,7 @@ func (sr *SelectRelation) Materialize(aggRunner *AggRunner, catDir *catalog.Dire
 					if sp.ContentsEnum.IsSet(EQUALITY) {
 						eqval, _ := io.GetValueAsInt64(sp.equal)
 						for i, val := range col {
-							if val != int32(eqval) {
+							if int64(val) != eqval {
 								removalBitmap[i] = true // remove
 							}
 						}
@@ -352,11 +352,11 @@ func (sr *SelectRelation) Materialize(aggRunner *AggRunner, catDir *catalog.Dire
 						minval, _ := io.GetValueAsInt64(sp.min)
 						for i, val := range col {
 							if sp.ContentsEnum.IsSet(INCLUSIVEMIN) {
-								if val < int32(minval) {
+								if int64(val) < minval {
 									removalBitmap[i] = true // remove
 								}
 							} else {
-								if val <= int32(minval) {
+								if int64(val) <= minval {
 									removalBitmap[i] = true // remove
 								}
 							}
@@ -366,11 +366,11 @@ func (sr *SelectRelation) Materialize(aggRunner *AggRunner, catDir *catalog.Dire
 						maxval, _ := io.GetValueAsInt64(sp.max)
 						for i, val := range col {
 							if sp.ContentsEnum.IsSet(INCLUSIVEMAX) {
-								if val > int32(maxval) {
+								if int64(val) > maxval {
 									removalBitmap[i] = true // remove
 								}
 							} else {
-								if val >= int32(maxval) {
+								if int64(val) >= maxval {
 									removalBitmap[i] = true // remove
 								}
 							}
